@@ -38,3 +38,10 @@ Theorem C09_second_oracle_decides : forall keys r1 bs2 r2,
   second_ok_b keys r1 bs2 r2 = true <-> second_ok keys r1 bs2 r2.
 Proof. exact second_ok_b_spec. Qed.
 Print Assumptions C09_second_oracle_decides.
+
+(** the oracle of the wal.Manager-level sub-family (appended + Sync'ed records survive a crash,
+    the replay is a prefix of what was appended) decides its specification *)
+Theorem C09_wal_oracle_decides : forall appended acked replayed,
+  wal_acked_durable_b appended acked replayed = true <-> wal_acked_durable appended acked replayed.
+Proof. exact wal_acked_durable_b_spec. Qed.
+Print Assumptions C09_wal_oracle_decides.
